@@ -55,13 +55,37 @@ def gen_command(rng, tokens, i=0):
         return out
     spec = {'stdout': lines(rng.choice([0, 1, 2, 4, 7])), 'stderr': lines(rng.choice([0, 0, 1, 3])), 'files': [],
             'status': rng.choice([0, 0, 0, 1, 3, 255])}
-    for k in range(rng.choice([0, 0, 1, 2, 3])):
-        if rng.random() < 0.7:
-            spec['files'].append({'name': 'out%d.%s' % (k, rng.choice(TEXT_EXTS)), 'kind': 'text', 'lines': lines(rng.choice([1, 2, 5]))})
+    nfiles = rng.choice([0, 0, 1, 2, 3])
+    names = file_names(rng, nfiles)
+    for k, name in enumerate(names):
+        text = name.rsplit('.', 1)[-1] in TEXT_EXTS or '.' not in name
+        if text:
+            spec['files'].append({'name': name, 'kind': 'text', 'lines': lines(rng.choice([1, 2, 5]))})
         else:
-            spec['files'].append({'name': 'out%d.%s' % (k, rng.choice(BIN_EXTS)), 'kind': 'binary',
+            spec['files'].append({'name': name, 'kind': 'binary',
                                   'hex': bytes(rng.randrange(256) for _ in range(rng.choice([1, 8, 64]))).hex()})
     return spec
+
+
+NAME_FAMILIES = [
+    ['out-a.txt', 'out_a.txt', 'out.a.txt'],                 # distinct names, same identifier once sanitised
+    ['north/Report.csv', 'south/Report.csv', 'Report.csv'],  # same base name in different directories, capitals
+    ['out1.log', 'OUT1.log', 'out1.LOG'],                    # differ in case only
+    ['README', 'data/README', 'out.tar.dat'],
+]
+
+
+def file_names(rng, n):
+    if n == 0:
+        return []
+    if n >= 2 and rng.random() < 0.35:
+        fam = rng.choice(NAME_FAMILIES)
+        return rng.sample(fam, min(n, len(fam)))
+    out = []
+    for k in range(n):
+        ext = rng.choice(TEXT_EXTS) if rng.random() < 0.7 else rng.choice(BIN_EXTS)
+        out.append('out%d.%s' % (k, ext))
+    return out
 
 
 def _printf_text(lines):
@@ -131,6 +155,9 @@ def mutated(spec, mut):
 
 def _body(spec):
     out = [_printf_text(spec['stdout']), _printf_text(spec['stderr']) + ' >&2']
+    dirs = sorted(set(f['name'].rsplit('/', 1)[0] for f in spec['files'] if '/' in f['name']))
+    if dirs:
+        out.append('mkdir -p ' + ' '.join(shlex.quote(d) for d in dirs))
     for f in spec['files']:
         if f.get('missing'):
             out.append('rm -f ' + shlex.quote(f['name']))
